@@ -63,8 +63,8 @@ type op struct {
 	KVs    []kvSpec `json:"kvs,omitempty"`
 	MemSet bool     `json:"memset,omitempty"` // commit through MemSet+Commit instead of Set
 	Root   int      `json:"root,omitempty"`
-	Start  bound    `json:"start,omitempty"`
-	End    bound    `json:"end,omitempty"`
+	Start  *bound   `json:"start,omitempty"`
+	End    *bound   `json:"end,omitempty"`
 	Desc   bool     `json:"desc,omitempty"`
 	Stop   int      `json:"stop,omitempty"` // >0: callback asks to stop after Stop visits
 	Redo   int      `json:"redo,omitempty"`
@@ -121,18 +121,18 @@ func genBatch(t *rapid.T, maxBatch int) []kvSpec {
 	return kvs
 }
 
-func genBound(t *rapid.T, label string) bound {
+func genBound(t *rapid.T, label string) *bound {
 	switch rapid.IntRange(0, 5).Draw(t, label) {
 	case 0, 1:
-		return bound{Kind: "nil"}
+		return &bound{Kind: "nil"}
 	case 2:
-		return bound{Kind: "live", I: rapid.IntRange(0, 1<<20).Draw(t, "bi")}
+		return &bound{Kind: "live", I: rapid.IntRange(0, 1<<20).Draw(t, "bi")}
 	case 3:
-		return bound{Kind: "succ", I: rapid.IntRange(0, 1<<20).Draw(t, "bi")}
+		return &bound{Kind: "succ", I: rapid.IntRange(0, 1<<20).Draw(t, "bi")}
 	case 4:
-		return bound{Kind: "pred", I: rapid.IntRange(0, 1<<20).Draw(t, "bi")}
+		return &bound{Kind: "pred", I: rapid.IntRange(0, 1<<20).Draw(t, "bi")}
 	}
-	return bound{Kind: "key", K: genKey().Draw(t, "bk")}
+	return &bound{Kind: "key", K: genKey().Draw(t, "bk")}
 }
 
 func genCase(t *rapid.T) testCase {
@@ -490,7 +490,7 @@ func (r *runner) iterate(vi int, start, end []byte, desc bool, stop int) int {
 	return len(want)
 }
 
-func (r *runner) resolveBound(v *version, b bound, isEnd bool) []byte {
+func (r *runner) resolveBound(v *version, b *bound, isEnd bool) []byte {
 	live := sortedKeys(v.kv)
 	var k []byte
 	switch b.Kind {
